@@ -1,6 +1,7 @@
 package rules
 
 import (
+	"os"
 	"fmt"
 	"go/constant"
 	"go/token"
@@ -1311,6 +1312,59 @@ func c09StrictDecode(c *Ctx) {
 			key := fmt.Sprintf("C09.strictdecode/%s", core.FuncID(f))
 			why := "the decoded string is not scanned, character by character, before it is handed to the base64 decoder (which skips CR and LF)"
 			good := false
+			// predScan: a predicate is applied to elemV (the rune / byte of the scan), its refusal
+			// leads to a failing return, and — folded — it refuses CR, LF, '=', '+', '/', space
+			// and accepts the URL-safe alphabet
+			predScan := func(runeV ssa.Value) {
+				allInstrs(f, func(i3 ssa.Instruction) {
+					pc, isC := i3.(*ssa.Call)
+					if !isC || len(pc.Call.Args) != 1 || guard.Strip(pc.Call.Args[0]) != runeV {
+						return
+					}
+					g := pc.Call.StaticCallee()
+					if g == nil || g.Blocks == nil {
+						return
+					}
+					refuses := false
+					for _, ret := range guard.Returns(f) {
+						if !guard.DefinitelyFails(ret) {
+							continue
+						}
+						for _, fct := range guard.BlockFacts(ret.Block()) {
+							if c2, val, isB := guard.BoolCallFact(fct); isB && c2 == pc && !val {
+								refuses = true
+							}
+						}
+					}
+					if !refuses {
+						why = "a character the predicate refuses does not lead to an error"
+						return
+					}
+					// the loop continues only when the predicate accepted: every back edge has pred == true
+					ev := consteval.New()
+					bad := ""
+					for _, ch := range []rune{'\r', '\n', '=', '+', '/', ' ', '.', 0x80} {
+						outs, ok := ev.Eval(g, []consteval.Val{consteval.C(int64(ch))}, nil)
+						if !ok || len(outs) != 1 || outs[0].Results[0].K != consteval.Const || constant.BoolVal(outs[0].Results[0].C) {
+							bad = fmt.Sprintf("%q", ch)
+						}
+					}
+					okCh := true
+					for _, ch := range []rune{'a', 'Z', '0', '-', '_'} {
+						outs, ok := ev.Eval(g, []consteval.Val{consteval.C(int64(ch))}, nil)
+						if !ok || len(outs) != 1 || outs[0].Results[0].K != consteval.Const || !constant.BoolVal(outs[0].Results[0].C) {
+							okCh = false
+						}
+					}
+					if bad != "" {
+						why = "the character predicate " + g.Name() + " does not refuse " + bad
+						return
+					}
+					if okCh {
+						good = true
+					}
+				})
+			}
 			allInstrs(f, func(i2 ssa.Instruction) {
 				rg, isR := i2.(*ssa.Range)
 				if !isR || !guard.SameValue(rg.X, src) && guard.Strip(rg.X) != guard.Strip(src) {
@@ -1348,56 +1402,43 @@ func c09StrictDecode(c *Ctx) {
 						continue
 					}
 					// predicate applied to the rune; refusal leads to a failing return
-					allInstrs(f, func(i3 ssa.Instruction) {
-						pc, isC := i3.(*ssa.Call)
-						if !isC || len(pc.Call.Args) != 1 || guard.Strip(pc.Call.Args[0]) != runeV {
-							return
-						}
-						g := pc.Call.StaticCallee()
-						if g == nil || g.Blocks == nil {
-							return
-						}
-						refuses := false
-						for _, ret := range guard.Returns(f) {
-							if !guard.DefinitelyFails(ret) {
-								continue
-							}
-							for _, fct := range guard.BlockFacts(ret.Block()) {
-								if c2, val, isB := guard.BoolCallFact(fct); isB && c2 == pc && !val {
-									refuses = true
-								}
-							}
-						}
-						if !refuses {
-							why = "a character the predicate refuses does not lead to an error"
-							return
-						}
-						// the loop continues only when the predicate accepted: every back edge has pred == true
-						ev := consteval.New()
-						bad := ""
-						for _, ch := range []rune{'\r', '\n', '=', '+', '/', ' ', '.', 0x80} {
-							outs, ok := ev.Eval(g, []consteval.Val{consteval.C(int64(ch))}, nil)
-							if !ok || len(outs) != 1 || outs[0].Results[0].K != consteval.Const || constant.BoolVal(outs[0].Results[0].C) {
-								bad = fmt.Sprintf("%q", ch)
-							}
-						}
-						okCh := true
-						for _, ch := range []rune{'a', 'Z', '0', '-', '_'} {
-							outs, ok := ev.Eval(g, []consteval.Val{consteval.C(int64(ch))}, nil)
-							if !ok || len(outs) != 1 || outs[0].Results[0].K != consteval.Const || !constant.BoolVal(outs[0].Results[0].C) {
-								okCh = false
-							}
-						}
-						if bad != "" {
-							why = "the character predicate " + g.Name() + " does not refuse " + bad
-							return
-						}
-						if okCh {
-							good = true
-						}
-					})
+					predScan(runeV)
 				}
 			})
+			if !good {
+				// byte-indexed form: for i := 0; i < len(s); i++ { if !pred(s[i]) { return err } }
+				allInstrs(f, func(i2 ssa.Instruction) {
+					lk, isL := i2.(*ssa.Index)
+					if !isL || !(guard.SameValue(lk.X, src) || guard.Strip(lk.X) == guard.Strip(src)) {
+						return
+					}
+					if bt, isB := lk.X.Type().Underlying().(*types.Basic); !isB || bt.Info()&types.IsString == 0 {
+						return
+					}
+					cl := countedLoopOf(lk.Index)
+					if os.Getenv("TV_DBG_B64") != "" {
+						fmt.Fprintf(os.Stderr, "B64 %s: lookup %v cl=%v\n", f.Name(), lk, cl)
+						if cl != nil {
+							fmt.Fprintf(os.Stderr, "  complete=%v cbe=%v inloop=%v bound=%v\n", cl.Complete, cl.CompleteButErrors, cl.Blocks[call.Block()], cl.Bound)
+						}
+					}
+					if cl == nil || !(cl.Complete || cl.CompleteButErrors) || cl.Blocks[call.Block()] {
+						why = "the decoder can be reached before the scan of the string is complete"
+						return
+					}
+					lc, _ := guard.CallOf(cl.Bound)
+					if lc == nil {
+						return
+					}
+					if b, isB := lc.Call.Value.(*ssa.Builtin); !isB || b.Name() != "len" || !(guard.SameValue(lc.Call.Args[0], src) || guard.Strip(lc.Call.Args[0]) == guard.Strip(src)) {
+						return
+					}
+					if !(cl.Header == call.Block() || cl.Header.Dominates(call.Block())) {
+						return
+					}
+					predScan(lk)
+				})
+			}
 			if !good {
 				// strings.ContainsFunc(s, isBad) == false / strings.IndexFunc(s, isBad) < 0 dominating the decode
 				for _, fct := range guard.InstrFacts(call) {
